@@ -386,7 +386,7 @@ class ReadModifyWriteRequestPacket(SendUnitDataRequestPacket):
             self.request_path,
             UINT.encode(self._mask_size),
             ULINT.encode(self._or_mask)[: self._mask_size],
-            ULINT.encode(self._and_mask)[: self._and_mask],
+            ULINT.encode(self._and_mask)[: self._mask_size],
         ]
 
 
